@@ -367,7 +367,9 @@ def shard_population(item):
                     ncases += 1
                     s.popEnergy = list(en)
                     if n < 2:
-                        exp = ref.candidate_relative_tolerance(pop, list(en), kwds['xtol'], kwds['ftol'])
+                        # outside the documented domain (ref R9): counted, not judged
+                        hist['outside_documented_domain_npop_lt_2'] = hist.get('outside_documented_domain_npop_lt_2', 0) + 1
+                        continue
                     else:
                         fpart = fcache.get(en, MISSING)
                         if fpart is MISSING:
